@@ -33,7 +33,12 @@ Inductive sink :=
 | SRestored (s : sink)                (* the sink on the error restored by unmarshaler.NewJSON *)
 | SRtSlots                            (* name=T (typed) or name=U:<json> (unknown) per field of the restored carrier *)
 | SRtError                            (* text of the error returned by Unmarshal *)
-| SValueStill.                        (* "true" iff Value() of the original wrapper is still the secret *)
+| SValueStill                         (* "true" iff Value() of the original wrapper is still the secret *)
+| SUnenc (t : otarget).               (* json.Marshal(target) when the harness has put a value that encoding/json
+                                         rejects (NaN, +Inf, a func, a chan) BESIDE the described value, in the same
+                                         field: {"v": <value>, "zz": <rejected>} under the key "v" / one more entry
+                                         of the Details map.  The text (encoding/json's error on the unchanged
+                                         tree) is not modelled; the outputs must be free of the secret. *)
 
 Record case := {
   c_fields : fields;      (* fields of the carrying error, All() order, secrets as marker ids *)
